@@ -153,11 +153,11 @@ def show(v):
     sign = b"-" if val < 0 else b""
     mag = abs(val)
     if dom == "hex":
-        return sign + (b"0x%x" % mag if mag else b"0")
+        return sign + b"0x%x" % mag
     if dom == "oct":
-        return sign + (b"0%o" % mag if mag else b"0")
+        return sign + b"0%o" % mag
     if dom == "bin":
-        return sign + (b"0b" + bin(mag)[2:].encode() if mag else b"0")
+        return sign + b"0b" + bin(mag)[2:].encode()
     if dom == "bool":
         return b"true" if val else b"false"
     if dom == "T_*":
